@@ -380,7 +380,7 @@ static void lines_run(uint64_t idx)
 }
 static uint64_t rand_count() { return 1400; }
 #else
-static uint64_t lines_count() { return enum_cases(); }
+static uint64_t lines_count() { return enum_cases(false); }
 static void lines_run(uint64_t idx)
 {
     uint64_t i = idx * enum_batch(), n = 0, k = 0;
@@ -395,12 +395,12 @@ static void lines_run(uint64_t idx)
         check_dispatch(s, i);
         n++;
         k += !ref_tokens(s).empty();
-    });
+    }, false);
     vf::count_bulk(n, k);
     if (idx == 30 && vf::want_sample())
         vf::sample("shell: every NUL-free line of length <= %d over the alphabet x 4 tables {a,ab,b},{ab,abb,a},{a/,.,\"},{ba,b.,aa} through "
                    "mshell_execute, mshell_tables_execute, rshell_execute (dropargs 0/1), rshell_tables_execute, rshell_execute_v",
-                   enum_maxlen());
+                   enum_maxlen(false));
 }
 static uint64_t rand_count() { return vf::thorough() ? 200000 : 5000; }
 #endif
